@@ -15,8 +15,13 @@ Client2 == /\ Live("client2")
            /\ JudgeK(Clauses2(s.stim, [call_ok |-> E.call = "ok", handler_runs |-> s.handlers - s.first, first_bytes |-> E.first_bytes])
                      \o << <<"C15.ConnectNeverHangs", E.connect # "hang" /\ E.call # "hang">>, <<"HarnessOK", s.client /\ "second_alpn" \in DOMAIN s.stim>> >>, s)
            /\ Count({"second_connections"} \cup (IF E.resumed THEN {"second_resumed"} ELSE {}))
+\* a load-balanced channel over two https endpoints: A's settings verify its server, B's (stim.b_domain) do or do not; every endpoint is
+\* authenticated by its own settings, so requests reach B's handler only if B's settings are valid
+BalanceTls == /\ Live("balance_tls") /\ UNCHANGED stats
+              /\ JudgeK(<< <<"C15.NoRequestReachesHandlerOtherwise", s.stim.b_domain # "good.test" => E.b_hits = 0>>,
+                           <<"C15.ValidConfigurationWorks", E.a_hits >= 1 /\ (s.stim.b_domain = "good.test" => E.ok_calls >= 15)>> >>, [s EXCEPT !.client = TRUE])
 End == EndK(<< <<"RunComplete", E.outcome = "ok" => s.client>> >>)
-Known == {"reset", "handler", "server_handshake_failed", "server_config_rejected", "client", "client2", "end"}
-Next == Reset \/ Handler \/ SrvFail \/ Client \/ Client2 \/ End \/ UnknownK(Known) \/ DeadSkipK
+Known == {"reset", "handler", "server_handshake_failed", "server_config_rejected", "client", "client2", "balance_tls", "end"}
+Next == Reset \/ Handler \/ SrvFail \/ Client \/ Client2 \/ BalanceTls \/ End \/ UnknownK(Known) \/ DeadSkipK
 Spec == Init /\ [][Next]_kvars
 =============================================================================
